@@ -73,8 +73,8 @@ Definition res_eqb (a b : res) : bool :=
 Record ccase := mkCCase { cc_id : N; cc_msg : msg; cc_enc : bytes; cc_dec : msg }.
 
 Definition SIG_ROUNDTRIP := 10%N.        (* decoded <> encoded, no narrower class *)
-Definition SIG_SHORT_READ := 11%N.       (* correct encoding longer than the 4096-byte bufio buffer *)
-Definition SIG_HS_NOT_FLUSHED := 12%N.   (* Handshake.MarshalBinary output is not the concatenation of its fields *)
+Definition SIG_SHORT_READ := 11%N.       (* correct encoding longer than the 4096-byte bufio buffer (former defect: one Read per field) *)
+Definition SIG_HS_NOT_FLUSHED := 12%N.   (* Handshake.MarshalBinary output is not the concatenation of its fields (former defect: no Flush) *)
 
 Definition is_handshake (m : msg) : bool := match m with MHandshake _ _ _ _ _ => true | _ => false end.
 
@@ -103,7 +103,7 @@ Definition SIG_STREAM := 2%N.       (* bytes read on a connection are not its da
 Definition SIG_END := 3%N.          (* a connection ended (or did not end) contrary to eof/close/disconnect *)
 Definition SIG_FRAMES := 4%N.       (* frames returned to the agent: wrong addresses, order or content *)
 Definition SIG_TORN_DOWN := 5%N.    (* the session was (not) torn down *)
-Definition SIG_LARGE_FRAME := 6%N.  (* only deviation: a frame longer than 4096 bytes was corrupted by the codec *)
+Definition SIG_LARGE_FRAME := 6%N.  (* bytes/frames wrong in a run that carries a frame longer than 4096 bytes (former codec defect) *)
 Definition SIG_OTHER := 7%N.
 
 Definition obs_eqb (o : sess * list res * list msg) (rs : list res) (fs : list msg) : bool :=
@@ -141,8 +141,9 @@ Definition big_frame (m : msg) : bool := BUFSZ <? zlen (encode_flushed m).
 Definition scase_sig (c : scase) : N :=
   let '(_, rs, fs) := run ideal_wire sess0 (sc_acts c) in
   if list_eqb res_eqb rs (sc_res c) && list_eqb msg_eqb fs (sc_frames c) then 0%N
-  else if negb (scase_mismatch c) && existsb big_frame (flat_map act_msgs (sc_acts c) ++ fs)
-       then SIG_LARGE_FRAME
+  else if existsb big_frame (flat_map act_msgs (sc_acts c) ++ fs)
+          && ((first_diff rs (sc_res c) =? 0) || (first_diff rs (sc_res c) =? SIG_STREAM))%N
+       then SIG_LARGE_FRAME  (* stream/frame deviation in a run carrying a frame above 4096 bytes *)
   else match first_diff rs (sc_res c) with
        | 0%N => SIG_FRAMES
        | s => s
@@ -150,15 +151,16 @@ Definition scase_sig (c : scase) : N :=
 
 (* ---- unsynchronised runs: what one service read vs. what the agent sent for it ---- *)
 Record tcase := mkTCase { tc_id : N; tc_sent : bytes; tc_got : bytes }.
-Definition SIG_LOST_AT_CLOSE := 8%N.   (* a proper prefix arrived: bytes still buffered when Read returned EOF *)
+Definition SIG_LOST_AT_CLOSE := 8%N.   (* a proper prefix arrived: bytes still buffered when Read returned EOF (former defect) *)
 Fixpoint is_prefix (a b : bytes) : bool :=
   match a, b with
   | [], _ => true
   | x :: a', y :: b' => (x =? y)%N && is_prefix a' b'
   | _ :: _, [] => false
   end.
-(* the step-by-step model allows exactly: a prefix of what was accepted (C16_reader_never_ahead) *)
-Definition tcase_mismatch (c : tcase) : bool := negb (is_prefix (tc_got c) (tc_sent c)).
+(* the step-by-step model: for every schedule the reader has read every accepted byte
+   when Read returns EOF (C16_all_delivered_before_eof) *)
+Definition tcase_mismatch (c : tcase) : bool := negb (eqb_bytes (tc_got c) (tc_sent c)).
 Definition tcase_sig (c : tcase) : N :=
   if eqb_bytes (tc_got c) (tc_sent c) then 0%N
   else if is_prefix (tc_got c) (tc_sent c) then SIG_LOST_AT_CLOSE else SIG_STREAM.
